@@ -76,36 +76,7 @@ def _in_domain(t) -> bool:
     return True
 
 
-def literal_overlap(t) -> bool:
-    """a string leaf equals (quotes included) the inner quoted segment of another leaf"""
-    import re
-
-    strs = []
-
-    def go(x):
-        if isinstance(x, dict):
-            for v in x.values():
-                go(v)
-        elif isinstance(x, list):
-            for v in x:
-                go(v)
-        elif isinstance(x, str):
-            strs.append(x)
-    go(t)
-    inner = set()
-    for s in strs:
-        m = re.fullmatch(r"([^'\"]+)'([^'\"]*)'([^'\"]+)", s)
-        if m:
-            inner.add(m.group(2))
-    dictIO = native.dictio()
-    f = dictIO.NativeFormatter()
-    # the other leaf is written as the very same single-quoted literal
-    return any(s in inner and f.format_value(s) == "'" + s + "'" for s in strs)
-
-
-KNOWN_PREDICATES = {
-    "C01-literal-overlap": lambda case, f: literal_overlap(case["t"]),
-}
+KNOWN_PREDICATES = {}
 
 
 def nontrivial(t) -> bool:
